@@ -366,6 +366,8 @@ pub fn match_leaves(toks: &[Tok], leaves: &[Leaf]) -> Result<(), String> {
             }
             (Tok::Str(a), Leaf::Str(b)) => a == b,
             (Tok::Chars(a), Leaf::Chars(b)) => a.as_bytes() == &b[..],
+            // character data may look like a number (SYST:VERS? answers 1999.0)
+            (Tok::Num(a), Leaf::Chars(b)) => a.as_bytes() == &b[..],
             (Tok::Blk(a), Leaf::Blk(b)) => a == b,
             _ => false,
         };
